@@ -366,7 +366,7 @@ func (p *pkg) assignsWithConds(fn, recv, lhs string) []string {
 	var out []string
 	walkConds(p.funcDeclRecv(fn, recv).Body, func(m ast.Node, conds []string) {
 		if as, ok := m.(*ast.AssignStmt); ok && len(as.Lhs) == 1 && len(as.Rhs) == 1 && as.Tok == token.ASSIGN {
-			if id, ok := as.Lhs[0].(*ast.Ident); ok && id.Name == lhs {
+			if nodeText(as.Lhs[0]) == lhs {
 				out = append(out, nodeText(as.Rhs[0])+" | "+strings.Join(conds, " && "))
 			}
 		}
@@ -1087,6 +1087,36 @@ func main() {
 		l := append(tp.callsWithConds("RenameFileCopyPermissions", "", "os.*"), tp.callsWithConds("RenameFileCopyPermissions", "", "RobustRename")...)
 		facts["renameIntoPlaceCalls"] = l
 		return "def renameIntoPlaceCalls : List Bytes := " + bytesList(l)
+	})
+	// ---- commands/command_fsck.go (C13): which checks run when none is asked for by name
+	emit("fsckDefaults", func() string {
+		l := append(cmds.assignsWithConds("fsckCommand", "", "fsckPointers"), cmds.assignsWithConds("fsckCommand", "", "fsckObjects")...)
+		facts["fsckDefaults"] = l
+		return "def fsckDefaults : List Bytes := " + bytesList(l)
+	})
+	// ---- commands/command_filter_process.go (C14): a pointer is remembered by path only for a blob that was delayed
+	emit("filterDelayedPointers", func() string {
+		l := cmds.assignsWithConds("filterCommand", "", `ptrs[req.Header["pathname"]]`)
+		facts["filterDelayedPointers"] = l
+		return "def filterDelayedPointers : List Bytes := " + bytesList(l)
+	})
+	// ---- tq/transfer_queue.go (C06, C15): an answered object is taken out of the request set at once
+	emit("tqAnsweredOnce", func() string {
+		l := tq.callsWithConds("enqueueAndCollectRetriesFor", "TransferQueue", "delete")
+		facts["tqAnsweredOnce"] = l
+		return "def tqAnsweredOnce : List Bytes := " + bytesList(l)
+	})
+	// ---- creds/creds.go (C17): the URL that URL-scoped credential settings are looked up with
+	emit("credConfigURL", func() string {
+		l := safeLoad(filepath.Join(repo, "creds")).callsWithConds("GetCredentialHelper", "CredentialHelperContext", "Sprintf")
+		facts["credConfigURL"] = l
+		return "def credConfigURL : List Bytes := " + bytesList(l)
+	})
+	// ---- commands/command_track.go (C19): a changed line is written where the old one stood
+	emit("trackRewriteInPlace", func() string {
+		l := cmds.callsWithConds("trackCommand", "", "WriteString")
+		facts["trackRewriteInPlace"] = l
+		return "def trackRewriteInPlace : List Bytes := " + bytesList(l)
 	})
 	// ---- commands/command_unlock.go (C16): the guard of `unlock --id` finds the lock's path in the local cache
 	// and, failing that, asks the server
